@@ -20,6 +20,7 @@ import (
 	"io"
 	"os"
 	"path"
+	"sort"
 	"strconv"
 	"strings"
 	"sync"
@@ -424,7 +425,15 @@ func (store *fileStore) IterateMessages(beginSeqNum, endSeqNum int, cb func([]by
 		return fmt.Errorf("unable to seek to start of file: %s: %s", store.headerFname, err.Error())
 	}
 
-	// Iterate over the header file
+	// Read the index. A number can appear in it more than once: the save that was interrupted by a crash
+	// before the counter was advanced leaves a line behind, and the number is then given to the next
+	// message. As in the other stores, saving under a number again replaces what was there: the last line
+	// for a number is the one that counts.
+	type indexEntry struct {
+		offset int64
+		size   int
+	}
+	index := make(map[int]indexEntry)
 	for {
 		var seqNum, size int
 		var offset int64
@@ -433,16 +442,23 @@ func (store *fileStore) IterateMessages(beginSeqNum, endSeqNum int, cb func([]by
 				break
 			}
 			return fmt.Errorf("unable to read from file: %s: %s", store.headerFname, err.Error())
-		} else if cnt < 3 || seqNum > endSeqNum {
-			// If we have reached the end of possible iteration then break
+		} else if cnt < 3 {
 			break
-		} else if seqNum < beginSeqNum {
-			// If we have not yet reached the starting sequence number then continue
+		} else if seqNum < beginSeqNum || seqNum > endSeqNum {
 			continue
 		}
-		// Otherwise process the file
-		msg := make([]byte, size)
-		if _, err := bodyFile.ReadAt(msg, offset); err != nil {
+		index[seqNum] = indexEntry{offset, size}
+	}
+	seqNums := make([]int, 0, len(index))
+	for seqNum := range index {
+		seqNums = append(seqNums, seqNum)
+	}
+	sort.Ints(seqNums)
+
+	for _, seqNum := range seqNums {
+		entry := index[seqNum]
+		msg := make([]byte, entry.size)
+		if _, err := bodyFile.ReadAt(msg, entry.offset); err != nil {
 			return fmt.Errorf("unable to read from file: %s: %s", store.bodyFname, err.Error())
 		} else if err = cb(msg); err != nil {
 			return err
